@@ -715,10 +715,56 @@ func (l *c18Life) Done() {
 	l.w.Close()
 }
 
+// c18FailingReader delivers left bytes of a non-periodic pattern and then fails.
+type c18FailingReader struct{ left, pos int }
+
+func (f *c18FailingReader) Read(p []byte) (int, error) {
+	if f.left == 0 {
+		return 0, fmt.Errorf("the source broke")
+	}
+	n := len(p)
+	if n > f.left {
+		n = f.left
+	}
+	for i := 0; i < n; i++ {
+		p[i] = byte((f.pos + i) * 2654435761 >> 13)
+	}
+	f.pos += n
+	f.left -= n
+	return n, nil
+}
+
 func init() {
 	Register("C18", "model_checking", func(c *Ctx) {
 		r := c.R
 		var byName int64
+		// an upload from a reader that fails after the production buffer (16 MiB) has been flushed once: the upload is
+		// aborted, nothing of it stays behind
+		var failedReaders int64
+		for _, tracked := range []bool{false, true} {
+			w := world.New()
+			b := c18Bucket(w, tracked)
+			n := 16<<20 + 70000
+			err := b.UploadFromStreamWithID(w.Ctx, "broken", "broken", &c18FailingReader{left: n})
+			if err == nil {
+				r.Violation("failing-reader-upload-succeeds", "UploadFromStreamWithID from a reader that fails after 16 MiB + 70000 bytes returned no error", map[string]interface{}{"tracked": tracked})
+			}
+			var chunks, files, markers []bson.D
+			for _, q := range []struct {
+				coll lungo.ICollection
+				out  *[]bson.D
+			}{{b.GetChunksCollection(w.Ctx), &chunks}, {b.GetFilesCollection(w.Ctx), &files}, {b.GetMarkersCollection(w.Ctx), &markers}} {
+				if cur, err := q.coll.Find(w.Ctx, bD(), options.Find().SetProjection(bD("data", int32(0)))); err == nil {
+					_ = cur.All(w.Ctx, q.out)
+				}
+			}
+			failedReaders++
+			if len(chunks) > 0 || len(files) > 0 || len(markers) > 0 {
+				r.Violation("failed-upload-leaves-data", fmt.Sprintf("an upload whose reader failed after 16 MiB + 70000 bytes left %d chunk(s), %d file record(s) and %d marker(s) behind (tracked=%v)", len(chunks), len(files), len(markers), tracked), map[string]interface{}{"tracked": tracked})
+			}
+			w.Close()
+		}
+		r.Set("uploads_from_failing_readers", failedReaders)
 		// several uploads under one name: a download by name picks the revision asked for (0, 1, ... from the oldest,
 		// -1, -2, ... from the newest; the default is the newest)
 		{
